@@ -22,7 +22,7 @@ VENV_PY = os.environ.get("MOKAPOT_PY", "/venv/bin/python")
 
 from .engine import Exec, Stale, Unsupported, find_function, strip_for_hash  # noqa: E402
 from .lib import LIB  # noqa: E402
-from . import libnp, libstr, libio  # noqa: E402,F401  (register the assumed library contracts)
+from . import libnp, libstr, libio, libbio  # noqa: E402,F401  (register the assumed library contracts)
 from . import solve  # noqa: E402
 from .spec import Contract  # noqa: E402
 
@@ -68,9 +68,17 @@ def source_function(target, mutate=None):
     path, qual = locate(target)
     src = open(path).read()
     if mutate is not None:
-        if mutate["find"] not in src:
+        # mutate inside the target function only (the same text may occur elsewhere in the file)
+        fn0 = find_function(ast.parse(src), qual)
+        if fn0 is None:
             return None, None, None
-        src = src.replace(mutate["find"], mutate["replace"], 1)
+        lines = src.split("\n")
+        lo = min([fn0.lineno] + [d.lineno for d in fn0.decorator_list]) - 1
+        seg = "\n".join(lines[lo:fn0.end_lineno])
+        if mutate["find"] not in seg:
+            return None, None, None
+        seg = seg.replace(mutate["find"], mutate["replace"], 1)
+        src = "\n".join(lines[:lo] + seg.split("\n") + lines[fn0.end_lineno:])
     tree = ast.parse(src)
     fn = find_function(tree, qual)
     if fn is None:
